@@ -132,7 +132,11 @@ func SiteString(pc uintptr) string {
 			file = file[j+1:]
 		}
 	}
-	return fmt.Sprintf("%s:%d", file, f.Line)
+	fn := f.Function
+	if i := strings.LastIndex(fn, "/"); i >= 0 {
+		fn = fn[i+1:]
+	}
+	return fmt.Sprintf("%s:%d[%s]", file, f.Line, fn)
 }
 
 // New creates a simulation; it must be called inside a synctest bubble.
